@@ -49,3 +49,27 @@ package conversion
 //@   property C29
 //@   option safety off
 //@   ensures (res == nil) == (protocol == nil)
+
+//@ -- ports are grouped per protocol (thin, for one arbitrary protocol c29P): a listed port of protocol c29P is dropped
+//@ -- from the group only if an earlier port entry of THE SAME protocol said 'all ports'; another protocol's
+//@ -- 'all ports' entry has no effect on it.  c29N counts the ports that must be in c29P's group.
+//@ ghost c29P string
+//@ ghost c29All bool
+//@ ghost c29N int
+//@ func (converter).k8sPortToCalico
+//@   property C29
+//@   option safety off
+//@   ensures res0 == nil || len(res0) == 1
+//@ func (converter).k8sPortToCalicoFields
+//@   property C29
+//@   option safety off
+//@   ensures res1 == nil || len(res1) == 1
+//@ func (converter).k8sRuleToCalico
+//@   property C29
+//@   option safety off
+//@   option callpre off
+//@   ghost at call Protocol).String: c29N = ((res == c29P && calicoPorts != nil && !c29All) ? c29N + 1 : c29N) ; c29All = c29All || (res == c29P && calicoPorts == nil)
+//@   loop 5 invariant old(c29All) || (0 <= c29N - old(c29N) && c29N - old(c29N) <= rangeindex + 1)
+//@   loop 5 invariant old(c29All) || (c29All ==> ((c29P in protocolPorts) && len(protocolPorts[c29P]) == 0))
+//@   loop 5 invariant old(c29All) || c29All || ((c29P in protocolPorts) == (c29N - old(c29N) > 0))
+//@   loop 5 invariant old(c29All) || c29All || ((c29P in protocolPorts) ==> len(protocolPorts[c29P]) == c29N - old(c29N))
